@@ -85,7 +85,9 @@ type sqlFakeConn struct{ db *sqlFakeDB }
 
 func (c *sqlFakeConn) Prepare(q string) (driver.Stmt, error) { return &sqlFakeStmt{c: c, q: q}, nil }
 func (c *sqlFakeConn) Close() error                          { return nil }
-func (c *sqlFakeConn) Begin() (driver.Tx, error)             { return nil, errors.New("sqlfake: transactions are not supported") }
+func (c *sqlFakeConn) Begin() (driver.Tx, error) {
+	return nil, errors.New("sqlfake: transactions are not supported")
+}
 
 func (c *sqlFakeConn) ExecContext(_ context.Context, q string, args []driver.NamedValue) (driver.Result, error) {
 	return c.db.exec(q, args)
